@@ -722,7 +722,16 @@ def _generate_color_font(config: FontConfig, inputs: Iterable[InputGlyph]):
     color_glyphs = []
     glyph_order = list(ufo.glyphOrder)
     assert glyph_order[0] == ".notdef"
+    input_names = set()
+    input_codepoints = set()
     for glyph_input in inputs:
+        # two sources for one glyph would silently be merged into a single glyph
+        if glyph_input.glyph_name in input_names:
+            raise ValueError(f"Multiple inputs for glyph {glyph_input.glyph_name}")
+        if glyph_input.codepoints and tuple(glyph_input.codepoints) in input_codepoints:
+            raise ValueError(f"Multiple inputs for codepoints {glyph_input.codepoints}")
+        input_names.add(glyph_input.glyph_name)
+        input_codepoints.add(tuple(glyph_input.codepoints))
         if glyph_input.glyph_name in glyph_order:
             gid = glyph_order.index(glyph_input.glyph_name)
         else:
